@@ -74,6 +74,7 @@ import (
 	"github.com/sassoftware/relic/v8/token"
 	"github.com/sassoftware/relic/v8/token/tokencache"
 
+	"verifharness/c15"
 	"verifharness/hx"
 )
 
@@ -383,6 +384,9 @@ func Gen(w *bufio.Writer, seed uint64, tier string) {
 		emit("conc", "long", "", same)
 		for _, n := range []int{8, 32} {
 			emit("shut", caches[r.Intn(3)], strconv.Itoa(r.Intn(12000)), mix(n, true))
+		}
+		for _, e := range []int{0, 1} {
+			fmt.Fprintf(w, "C14 cachecancel %d %d\n", e, []int{1, 4}[e])
 		}
 	}
 }
@@ -1017,6 +1021,10 @@ func Impl() {
 	hx.EachLine(func(f []string) string {
 		if len(f) < 3 {
 			return "bad-op"
+		}
+		if f[0] == "cachecancel" {
+			// one request's cancellation inside the shared key cache must not reach another request (shared with C15)
+			return c15.RunCacheCancel(f[1:])
 		}
 		kind, cache := f[0], f[1]
 		n, err := strconv.Atoi(f[2])
